@@ -110,6 +110,7 @@ func (tr *tokenReader) Next() bool {
 		return true
 	}
 	// find all byte-driven tokens
+	errsBefore := len(tr.errs)
 	tk, ok := tr.tree.findFirst(tr)
 	if len(tr.errs) != 0 {
 		lastErr := tr.errs[len(tr.errs)-1]
@@ -128,6 +129,10 @@ func (tr *tokenReader) Next() bool {
 		}
 		tr.setNextToken(tk)
 		return true
+	}
+	if len(tr.errs) > errsBefore {
+		// the read itself failed: there is no byte to hand to the rune reader
+		return false
 	}
 	tr.unreadByte()
 
